@@ -29,6 +29,11 @@ CLAIMED = {
    text="The model enumerates 5 zone kinds x 6 question kinds x 26 tamperings x 8 client flag sets x anchor present/absent (12,480 cases) and proves the pipeline admits only SERVFAIL-or-truth, AD only on a fully secure path toward a client that asked, insecure only by proof, fail-closed without anchors. The replay runs a seeded sample of those cases (all in thorough) end to end, twice each so the second reply comes from the caches the first filled.",
    design_ref="2.13",
    note="One or two tamperings per case (pairs at two different positions); single-server zones, so an effective tampering leaves SERVFAIL as the only legal outcome; ECDSA P-256 keys (algorithm coverage is C14's subject); data tampering inside provably-insecure zones is out of the statement's scope."),
+ "C20": dict(
+   technique="TLA+ specs Dns64Layout.tla (RFC 6052 position map as a state machine: Validate/Embed/Corrupt/Extract/PtrQuery) and Dns64Decide.tla (eligibility gates + response dispatch as a decision table, conformant and as-built variants) model-checked exhaustively with TLC; every TLC state is replayed on the real dns64 handler with a scripted downstream/queryer (AAAA synthesis + ip6.arpa PTR round trip; every decision row), property predicates evaluated on the real replies",
+   text="Layout: RoundTrip, ReservedZero, SuffixZero, Injective, PtrBack, IllegalRejected for all six legal lengths (and 11 illegal ones) over a 3-5 value octet alphabet, plus seeded random addresses on the code. Decision: SynthOnlyWhenAllowed, NeverOverFailure, NeverAD, TtlMin, WellKnownSkipsExcludedV4, owner-after-chain over client flags x class x eligibility x downstream AAAA/A response classes (all 11 DNSSEC EDE codes).",
+   design_ref="2.11",
+   note="Two defects found and repaired (fix: 1f8aa3e AD on fully-filtered answers, 96db742 zero negative TTL); one recorded finding (all-zero Pref64 ::/56, ::/64 with IPv4-mapped-looking results does not PTR-translate back). A DNSSEC failure is visible to dns64 only as SERVFAIL + DNSSEC EDE; overlapping prefixes are not explored for PTR."),
 }
 
 NOT_YET = {}
